@@ -19,6 +19,16 @@
 #endif
 #include "contracts/sha_block.h"
 #include "spec/ghost.h"
+/* Domain of the bundled (third-party) update functions: the length parameter is an unsigned int and the code
+ * computes `buffered + len` (all three), `i + 63` (SHA-1) and `(int)i << 6` (SHA-2) in 32 bits, so a single update
+ * of 2 GiB or more is outside what these functions handle (wrong block count; SHA-1 even copies `len` bytes into
+ * its 64-byte buffer when buffered + len wraps).  The limit is a REQUIRES here and therefore an obligation at the
+ * call sites in lib_hash_update (libsha.c), where the size_t -> unsigned int narrowing happens. */
+#define SHA_MAX_SINGLE_UPDATE 0x7fffffffu
+/* FIPS 180-4 section 1: SHA-1 and SHA-256 are defined for messages of fewer than 2^64 BITS; the same limit is
+ * used for SHA-512 here (the standard allows 2^128 bits; the bundled code counts bytes in at most 64 bits).
+ * Trivially true while the context counts the length in 32 bits (unchanged tree). */
+#define SHA_MAX_MESSAGE_BYTES (1ull << 61)
 
 /* ------------------------------------------------------------------------------------------------------------
  * SHA-256 (block 64, length field 8 bytes)
@@ -42,6 +52,7 @@ V_ENSURES(ctx->h[g_k1 & 7] == SPEC_SHA256_IV(g_k1 & 7)) /*@C18.sha256_init.fips_
 #ifndef VERIF_SHA_MACROS_ONLY
 void sha256_update(sha256_ctx *ctx, const unsigned char *message, unsigned int len)
 V_REQUIRES(SHA256_CTX_WF(ctx))
+V_REQUIRES(len <= SHA_MAX_SINGLE_UPDATE)
 V_REQUIRES(len == 0 || __CPROVER_r_ok(message, len))
 V_ASSIGNS(ctx->len, ctx->tot_len, __CPROVER_object_upto(ctx->block, sizeof(ctx->block)), __CPROVER_object_upto(ctx->h, sizeof(ctx->h)), g_tb_total, g_tby_seen, g_tby_val)
 V_ENSURES(ctx->len == U256_REM) /*@C18.sha256_update.buffered_length_is_remainder*/
@@ -63,6 +74,7 @@ V_ENSURES((g_u64)ctx->tot_len == (g_u64)V_OLD(ctx->tot_len) + 64 * U256_N) /*@C1
 #ifndef VERIF_SHA_MACROS_ONLY
 void sha256_final(sha256_ctx *ctx, unsigned char *digest)
 V_REQUIRES(SHA256_CTX_WF(ctx))
+V_REQUIRES((g_u64)ctx->tot_len + (g_u64)ctx->len < SHA_MAX_MESSAGE_BYTES)
 V_REQUIRES(__CPROVER_w_ok(digest, SHA256_DIGEST_SIZE))
 V_ASSIGNS(__CPROVER_object_upto(ctx->block, sizeof(ctx->block)), __CPROVER_object_upto(ctx->h, sizeof(ctx->h)), __CPROVER_object_upto(digest, SHA256_DIGEST_SIZE), g_tb_total, g_tby_seen, g_tby_val)
 V_ENSURES(g_tb_total == V_OLD(g_tb_total) + F256_N) /*@C18.sha256_final.padded_length_is_least_multiple*/
@@ -96,6 +108,7 @@ V_ENSURES(ctx->h[g_k1 & 7] == SPEC_SHA512_IV(g_k1 & 7)) /*@C18.sha512_init.fips_
 #ifndef VERIF_SHA_MACROS_ONLY
 void sha512_update(sha512_ctx *ctx, const unsigned char *message, unsigned int len)
 V_REQUIRES(SHA512_CTX_WF(ctx))
+V_REQUIRES(len <= SHA_MAX_SINGLE_UPDATE)
 V_REQUIRES(len == 0 || __CPROVER_r_ok(message, len))
 V_ASSIGNS(ctx->len, ctx->tot_len, __CPROVER_object_upto(ctx->block, sizeof(ctx->block)), __CPROVER_object_upto(ctx->h, sizeof(ctx->h)), g_tb_total, g_tby_seen, g_tby_val)
 V_ENSURES(ctx->len == U512_REM) /*@C18.sha512_update.buffered_length_is_remainder*/
@@ -117,6 +130,7 @@ V_ENSURES((g_u64)ctx->tot_len == (g_u64)V_OLD(ctx->tot_len) + 128 * U512_N) /*@C
 #ifndef VERIF_SHA_MACROS_ONLY
 void sha512_final(sha512_ctx *ctx, unsigned char *digest)
 V_REQUIRES(SHA512_CTX_WF(ctx))
+V_REQUIRES((g_u64)ctx->tot_len + (g_u64)ctx->len < SHA_MAX_MESSAGE_BYTES)
 V_REQUIRES(__CPROVER_w_ok(digest, SHA512_DIGEST_SIZE))
 V_ASSIGNS(__CPROVER_object_upto(ctx->block, sizeof(ctx->block)), __CPROVER_object_upto(ctx->h, sizeof(ctx->h)), __CPROVER_object_upto(digest, SHA512_DIGEST_SIZE), g_tb_total, g_tby_seen, g_tby_val)
 V_ENSURES(g_tb_total == V_OLD(g_tb_total) + F512_N) /*@C18.sha512_final.padded_length_is_least_multiple*/
@@ -153,6 +167,7 @@ V_ENSURES(context->state[g_k1 % 5] == SPEC_SHA1_IV(g_k1 % 5)) /*@C18.SHA1_Init.f
 #ifndef VERIF_SHA_MACROS_ONLY
 void SHA1_Update(SHA_CTX *context, const sha1_byte *data, unsigned int len)
 V_REQUIRES(SHA1_CTX_WF(context))
+V_REQUIRES(len <= SHA_MAX_SINGLE_UPDATE)
 V_REQUIRES(len == 0 || __CPROVER_r_ok(data, len))
 V_ASSIGNS(__CPROVER_object_upto(context->count, sizeof(context->count)), __CPROVER_object_upto(context->buffer, sizeof(context->buffer)), __CPROVER_object_upto(context->state, sizeof(context->state)), g_tb_total, g_tby_seen, g_tby_val, __CPROVER_object_upto(g_last_h, 5 * sizeof(g_u64)))
 V_ENSURES(SHA1_BITS(context) == SHA1_BITS_OLD(context) + 8 * (g_u64)len) /*@C18.SHA1_Update.bit_count_exact*/
